@@ -2,13 +2,14 @@
 # tools/run_all.sh [tier] : every check once, in parallel groups; prints one line per property
 TIER=${1:-quick}
 cd "$(dirname "$0")/.."
+LOGD=$(mktemp -d)
 (cd lean && lake build MotoModel motodrv >/dev/null 2>&1)
 for p in C01 C02 C03 C04 C05 C06 C07 C08 C09 C10 C11 C12 C13 C14 C15 C16 C17 C18 C19 C20; do
-  ( ./bin/check $p $TIER > /tmp/runall_$p.log 2>&1; rc=$?; echo "$p rc=$rc $(grep -E 'VIOLATION|KNOWN' /tmp/runall_$p.log | head -2 | tr '\n' ' ') $(tail -1 /tmp/runall_$p.log)"; if [ $rc -ge 2 ]; then cp /tmp/runall_$p.log /tmp/failed_runall_$p.log; fi ) &
+  ( ./bin/check $p $TIER > $LOGD/$p.log 2>&1; rc=$?; echo "$p rc=$rc $(grep -E 'VIOLATION|KNOWN' $LOGD/$p.log | head -2 | tr '\n' ' ') $(tail -1 $LOGD/$p.log)"; if [ $rc -ge 2 ]; then cp $LOGD/$p.log /tmp/failed_runall_$p.log; fi ) &
   if [ $(jobs | wc -l) -ge 6 ]; then wait; fi
 done
 wait
-rm -f /tmp/runall_*.log
+rm -rf "$LOGD"
 # lean/GenPinned is the description of the pinned tree, used when a changed tree's description no longer builds:
 # on the pinned tree it must equal what the translator produces now
 if ! diff -rq lean/MotoModel/Gen lean/GenPinned >/dev/null 2>&1; then
